@@ -486,6 +486,22 @@ fn main() {
                 if reached.is_empty() {
                     break;
                 }
+                // directed shards only: every fourth random plan holds *every* hit of one anchored window briefly and every
+                // hit of another one long (two parties of the same primitive each delayed inside its own window, whenever
+                // they get there: "A is still between its two steps when B has gone through both of its own")
+                if !a.only_site.is_empty() && reached.len() >= 2 && r.chance(1, 4) {
+                    let s1 = *r.pick(&reached);
+                    let mut s2 = *r.pick(&reached);
+                    if s2 == s1 {
+                        s2 = reached[(reached.iter().position(|&v| v == s1).unwrap() + 1) % reached.len()];
+                    }
+                    let short = *r.pick(&[200u64, 700]);
+                    plans.push(vec![
+                        PlanEntry { site: s1, k: 0, us: short, flags: 0 },
+                        PlanEntry { site: s2, k: 0, us: 3000, flags: if def.fire { hook::F_FIRE } else { 0 } },
+                    ]);
+                    continue;
+                }
                 // every third random plan is an "overtake": two consecutive hits of one site, the earlier one held long, the
                 // later one briefly, so that the party that arrived second leaves the window first
                 if r.chance(1, 3) {
